@@ -5,6 +5,7 @@ import (
 	"go/ast"
 	"go/token"
 	"go/types"
+	"golang.org/x/tools/go/ssa"
 	"math/big"
 	"strings"
 
@@ -501,5 +502,165 @@ func r44TileAddressingInverse(c *core.Ctx) {
 		}
 		c.Check(R, "bbox-y-spans-matrix-height/"+arm, bb.Decl.Pos(), okBY, "topRight.y - bottomLeft.y == gridHeight, anchored at the origin on the side the corner of origin names", "the bounding box's y range is not gridHeight measured from the point of origin for cornerOfOrigin "+arm)
 	}
+	r44OutsideMapsToNoTile(c, fn)
 	c.Floor(R, 7)
+}
+
+// r44OutsideMapsToNoTile: FromNative answers (tile, true) only if, for the column and for the row, the fractional
+// index was tested `< 0` and the truncated index was tested `>=` the matrix width resp. height, with the failing side
+// of each test not reaching the success return.  The tests may sit in FromNative or in a (value, ok) helper it calls
+// once per axis.
+func r44OutsideMapsToNoTile(c *core.Ctx, f *core.Func) {
+	const R = "R44"
+	fn := f.SSA
+	if fn == nil {
+		return
+	}
+	var newTile *ssa.Call
+	for _, call := range findCalls(fn, "github.com/go-spatial/geom/slippy.NewTile") {
+		newTile = call
+	}
+	var success *ssa.Return
+	for _, b := range fn.Blocks {
+		for _, in := range b.Instrs {
+			if ret, ok := in.(*ssa.Return); ok && len(ret.Results) == 2 && isConstBool(ret.Results[1], true) {
+				success = ret
+			}
+		}
+	}
+	if newTile == nil || success == nil || len(newTile.Call.Args) != 3 {
+		for _, ax := range []string{"column", "row"} {
+			c.Bad(R, "outside-maps-to-no-tile/"+ax, f.Decl.Pos(), "FromNative does not end in `return slippy.NewTile(zoom, column, row), true`")
+		}
+		return
+	}
+	// failing side of a test never reaches the success return of fn
+	guards := func(fn *ssa.Function, succ ssa.Instruction, i *ssa.If, failEdge int) bool {
+		found, _ := core.Search{Fn: fn, Target: instrIs(succ), Edge: func(b *ssa.BasicBlock, k int) bool {
+			if b == i.Block() {
+				return k == failEdge
+			}
+			return true
+		}}.Run()
+		return !found
+	}
+	// checkIndex: idx is uint(frac) with `frac < 0` and `idx >= bound` both guarding succ; returns the bound
+	checkIndex := func(fn *ssa.Function, succ ssa.Instruction, idx ssa.Value) (ssa.Value, string) {
+		cv, ok := idx.(*ssa.Convert)
+		if !ok {
+			return nil, "the index is not a truncated fractional index"
+		}
+		frac := cv.X
+		var bound ssa.Value
+		negOK := false
+		for _, b := range fn.Blocks {
+			i := core.BlockIf(b)
+			if i == nil {
+				continue
+			}
+			cmp, ok := i.Cond.(*ssa.BinOp)
+			if !ok {
+				continue
+			}
+			isZero := func(v ssa.Value) bool {
+				k, ok := v.(*ssa.Const)
+				return ok && k.Value != nil && k.Float64() == 0
+			}
+			sameIdx := func(v ssa.Value) bool {
+				if v == idx {
+					return true
+				}
+				c2, ok := v.(*ssa.Convert)
+				return ok && c2.X == frac && types.Identical(c2.Type(), cv.Type())
+			}
+			switch {
+			case cmp.Op == token.LSS && cmp.X == frac && isZero(cmp.Y):
+				negOK = negOK || guards(fn, succ, i, 0)
+			case cmp.Op == token.GEQ && cmp.X == frac && isZero(cmp.Y):
+				negOK = negOK || guards(fn, succ, i, 1)
+			case cmp.Op == token.GEQ && sameIdx(cmp.X):
+				if guards(fn, succ, i, 0) {
+					bound = cmp.Y
+				}
+			case cmp.Op == token.LSS && sameIdx(cmp.X):
+				if guards(fn, succ, i, 1) {
+					bound = cmp.Y
+				}
+			}
+		}
+		if !negOK {
+			return nil, "a negative fractional index is not rejected"
+		}
+		if bound == nil {
+			return nil, "an index at or beyond the matrix size is not rejected"
+		}
+		return bound, ""
+	}
+	isField := func(v ssa.Value, name string) bool { return isFieldRead(v, name) }
+	for k, ax := range []string{"column", "row"} {
+		want := []string{"MatrixWidth", "MatrixHeight"}[k]
+		idx := newTile.Call.Args[k+1]
+		construct := "outside-maps-to-no-tile/" + ax
+		var bound ssa.Value
+		why := ""
+		if ex, ok := idx.(*ssa.Extract); ok && ex.Index == 0 {
+			// (index, ok) helper
+			call, isCall := ex.Tuple.(*ssa.Call)
+			h := (*ssa.Function)(nil)
+			if isCall {
+				h = call.Call.StaticCallee()
+			}
+			if h == nil || len(h.Blocks) == 0 {
+				why = "the index comes from a call the rule cannot follow"
+			} else {
+				okv := extractOf(call, 1)
+				// in FromNative: success not reachable with ok == false
+				okGuard := false
+				for _, b := range fn.Blocks {
+					i := core.BlockIf(b)
+					if i == nil || okv == nil {
+						continue
+					}
+					if i.Cond == okv {
+						okGuard = okGuard || guards(fn, success, i, 1)
+					} else if u, isU := i.Cond.(*ssa.UnOp); isU && u.Op == token.NOT && u.X == okv {
+						okGuard = okGuard || guards(fn, success, i, 0)
+					}
+				}
+				var hsucc *ssa.Return
+				for _, b := range h.Blocks {
+					for _, in := range b.Instrs {
+						if ret, ok := in.(*ssa.Return); ok && len(ret.Results) == 2 && isConstBool(ret.Results[1], true) {
+							hsucc = ret
+						}
+					}
+				}
+				switch {
+				case !okGuard:
+					why = "the helper's ok result does not guard the success return"
+				case hsucc == nil:
+					why = "the helper has no `return index, true`"
+				default:
+					hb, w := checkIndex(h, hsucc, hsucc.Results[0])
+					why = w
+					if hb != nil {
+						for pi, prm := range h.Params {
+							if hb == ssa.Value(prm) && pi < len(call.Call.Args) {
+								bound = call.Call.Args[pi]
+							}
+						}
+						if bound == nil {
+							why = "the helper compares the index with something other than its size parameter"
+						}
+					}
+				}
+			}
+		} else {
+			bound, why = checkIndex(fn, success, idx)
+		}
+		if why == "" && !isField(bound, want) {
+			why = "the " + ax + " index is bounded by " + bound.String() + " instead of tm." + want
+		}
+		c.Check(R, construct, newTile.Pos(), why == "", "a negative or >= tm."+want+" "+ax+" index never yields a tile", "points outside the matrix extent can map to a tile: "+why)
+	}
 }
